@@ -71,6 +71,7 @@ func (b *B) Call(n int, ellipsis bool) {
 	b.cb.Call(n, ellipsis)
 	b.post("Call", n, 0)
 }
+
 // CallLHS is Call with the number of values the statement expects (XGo passes 2 for `a, ok := f(x)`).
 func (b *B) CallLHS(n, lhs int, ellipsis bool) {
 	b.pre("Call")
@@ -231,6 +232,15 @@ func (b *B) BodyStart(fn *gogen.Func, pkg *gogen.Package) {
 func (b *B) NewClosure(params, results *types.Tuple, variadic bool) *gogen.Func {
 	b.pre("NewClosure")
 	fn := b.cb.NewClosure(params, results, variadic)
+	b.post("NewClosure", 0, 0)
+	return fn
+}
+
+// NewClosureWith creates a closure from a signature object the front end owns (and may use
+// for several closures, also nested ones).
+func (b *B) NewClosureWith(sig *types.Signature) *gogen.Func {
+	b.pre("NewClosure")
+	fn := b.cb.NewClosureWith(sig)
 	b.post("NewClosure", 0, 0)
 	return fn
 }
